@@ -966,7 +966,7 @@ func runC06(c C06Case, cs *kit.CaseStats) error {
 	if hw.w.Address() != addr {
 		return fmt.Errorf("INFRA: wallet address mismatch")
 	}
-	known := func(id types.BlockID) bool { _, ok := node.CM.State(id); return ok }
+	_ = func(id types.BlockID) bool { _, ok := node.CM.State(id); return ok }
 	linearCache := map[types.BlockID][]wallet.Event{}
 	checks := 0
 
@@ -1036,7 +1036,7 @@ func runC06(c C06Case, cs *kit.CaseStats) error {
 	for si, st := range c.Steps {
 		switch {
 		case st.Submit != nil:
-			_, blocks, states, validated := tr.ResolveBatch(*st.Submit, known)
+			_, blocks, states, validated := tr.ResolveBatch(*st.Submit, node.ValidatedParent)
 			if len(blocks) == 0 {
 				continue
 			}
